@@ -24,6 +24,22 @@
 (* (db:",opt") or "-" (to the code "-" is a column name like any other),   *)
 (* structs mixing tagged and untagged fields.                              *)
 (*                                                                         *)
+(* A NAME is more than its column: the same column can be spelled          *)
+(* "userid", "userId", "Userid" or "USERID" (all lower / camel /           *)
+(* capitalised / all upper).  A name is modelled as the pair <<column id,  *)
+(* case style>>; a tagged shape spells all its tags in one style `tcase`,  *)
+(* a result set spells all its columns in one style `ccase`.  A tag names  *)
+(* exactly the column with the same spelling (tcase = ccase: the style     *)
+(* never changes the outcome, SameSpellingMatches).  When the result set   *)
+(* spells its columns differently from the tags the statement does not say *)
+(* whether "USERID" is the column that db:"userId" names: both readings    *)
+(* are allowed - names compare exactly (what orm.go does: the map lookup   *)
+(* taggedMap[column] is by the verbatim string, so none of the columns is  *)
+(* named by a tag, they are ignored like the extra column and the fields   *)
+(* stay zero) or names compare with their case folded (every column is     *)
+(* its tag's column) - but nothing else (OtherSpellingEitherReading).      *)
+(* Untagged shapes are filled by position; their columns are all lower.    *)
+(*                                                                         *)
 (* Allowed(case) is the SET of outcomes the statement permits:             *)
 (*   - single-row query on an empty result            -> {notfound}        *)
 (*   - struct, strict, fewer columns than fields      -> {error}           *)
@@ -50,8 +66,15 @@ CONSTANTS MaxF,      \* largest number of struct fields (<= 3)
           Dests,     \* subset of {"one", "vals", "ptrs"}: *T, *[]T, *[]*T
           Pres,      \* how many elements a slice destination may already hold, e.g. {0, 1}
           TagStyles, \* spellings of the db tags of a tagged shape: subset of {"plain","opts","comma","mixed"}
-          StyleCross \* what the spellings other than "plain" are combined with: "none" = pointer-free shapes and
+          StyleCross,\* what the spellings other than "plain" are combined with: "none" = pointer-free shapes and
                      \* empty slices only, "ptrs" = every pointer set (empty slices), "all" = everything
+          TagCases,  \* letter case of the names in the db tags of a tagged shape: subset of {"lower","camel","cap","upper"}
+          ColCases,  \* letter case of the column names of the result set offered to a tagged shape: "same" = as the
+                     \* tags, "next" = as the tags or in the next style, "all" = every style
+          CaseCross  \* what tags spelled other than all lower-case are combined with: "flat" = plain tags, no pointer
+                     \* fields, no embedded struct, empty slices; "ptrs" = the same with every pointer set; "all" =
+                     \* everything.  A result set spelled differently from the tags is offered to "flat" shapes only
+                     \* (unless CaseCross = "all")
 
 VARIABLES shape, picked, out
 vars == <<shape, picked, out>>
@@ -77,6 +100,20 @@ TagOf(sp, i) == <<i>> \o OptTokens(StyleOf(sp, i))
 \* the column a tag names: the element before the first comma
 KeyOf(tag) == tag[1]
 
+\* letter case of names
+AllCases == {"lower", "camel", "cap", "upper"}
+NextCase(s) == CASE s = "lower" -> "camel" [] s = "camel" -> "cap" [] s = "cap" -> "upper" [] OTHER -> "lower"
+ColCaseChoices(tc) == CASE ColCases = "same" -> {tc}
+                        [] ColCases = "next" -> {tc, NextCase(tc)}
+                        [] OTHER             -> AllCases
+\* the shapes and slices the case dimension is crossed with
+FlatShape(sp, e, ps, pre) == sp = "plain" /\ e = "none" /\ ps = {} /\ pre = 0
+CaseNarrow(sp, e, ps, pre) ==
+  CASE CaseCross = "flat" -> FlatShape(sp, e, ps, pre)
+    [] CaseCross = "ptrs" -> FlatShape(sp, e, {}, pre)
+    [] OTHER              -> TRUE
+OtherNarrow(sp, e, ps, pre) == CaseCross = "all" \/ FlatShape(sp, e, ps, pre)
+
 (* ---------------------------------------------------------------- cases *)
 
 \* column lists offered for a struct shape
@@ -91,13 +128,13 @@ ColLists(nf, tg, e) ==
 
 \* nf counts the LEAF fields (an embedded struct is flattened); the last embn of them live inside
 \* the embedded struct (embn = 0 iff emb = "none"), so the struct has nf - embn + 1 top-level fields
-StructCase(nf, tg, sp, e, en, ps, d, cs, n, nl, st, pre) ==
-  [prim |-> FALSE, nf |-> nf, tagged |-> tg, tagsp |-> sp, emb |-> e, embn |-> en, ptrs |-> ps, dest |-> d,
-   cols |-> cs, nrows |-> n, null |-> nl, strict |-> st, pre |-> pre]
+StructCase(nf, tg, sp, tc, e, en, ps, d, cs, cc, n, nl, st, pre) ==
+  [prim |-> FALSE, nf |-> nf, tagged |-> tg, tagsp |-> sp, tcase |-> tc, emb |-> e, embn |-> en, ptrs |-> ps, dest |-> d,
+   cols |-> cs, ccase |-> cc, nrows |-> n, null |-> nl, strict |-> st, pre |-> pre]
 
 PrimCase(d, cid, n, nl, st, pre) ==
-  [prim |-> TRUE, nf |-> 1, tagged |-> FALSE, tagsp |-> "none", emb |-> "none", embn |-> 0, ptrs |-> {}, dest |-> d,
-   cols |-> <<cid>>, nrows |-> n, null |-> nl, strict |-> st, pre |-> pre]
+  [prim |-> TRUE, nf |-> 1, tagged |-> FALSE, tagsp |-> "none", tcase |-> "none", emb |-> "none", embn |-> 0, ptrs |-> {}, dest |-> d,
+   cols |-> <<cid>>, ccase |-> "lower", nrows |-> n, null |-> nl, strict |-> st, pre |-> pre]
 
 (* ---------------------------------------------------------------- the mapping *)
 
@@ -106,33 +143,40 @@ At(c, r, j) == IF r = 1 /\ c.null = j THEN 0 ELSE Cell(c.cols[j], r)
 
 Pos(c, id) == CHOOSE j \in 1..Len(c.cols) : c.cols[j] = id
 
-\* field i receives the cell of the column its tag names (only tagged shapes are filled by name)
+\* field i receives the cell of the column its tag names (only tagged shapes are filled by name).
+\* A fill mode is "exact" (by name, names compare by their spelling), "fold" (by name, letter case
+\* folded) or "pos" (by position).  Tags and columns are each spelled in one style, so under "exact"
+\* a differently spelled result set holds no column that any tag names.
 Key(c, i) == KeyOf(TagOf(c.tagsp, i))
-ByName(c, r) == [i \in 1..c.nf |-> IF Key(c, i) \in Range(c.cols) THEN At(c, r, Pos(c, Key(c, i))) ELSE 0]
+TagName(c, i) == <<Key(c, i), c.tcase>>
+ColName(c, j) == <<c.cols[j], c.ccase>>
+SameName(a, b, mode) == a[1] = b[1] /\ (mode = "fold" \/ a[2] = b[2])
+Named(c, i, mode) == \E j \in 1..Len(c.cols) : SameName(TagName(c, i), ColName(c, j), mode)
+ByName(c, r, mode) == [i \in 1..c.nf |-> IF Named(c, i, mode) THEN At(c, r, Pos(c, Key(c, i))) ELSE 0]
 ByPos(c, r)  == [i \in 1..c.nf |-> IF i <= Len(c.cols) THEN At(c, r, i) ELSE 0]
 
 \* rows the API looks at
 UsedRows(c) == IF c.dest = "one" THEN (IF c.nrows = 0 THEN 0 ELSE 1) ELSE c.nrows
 
-Filled(c, byname) == [r \in 1..UsedRows(c) |-> IF byname THEN ByName(c, r) ELSE ByPos(c, r)]
+Filled(c, mode) == [r \in 1..UsedRows(c) |-> IF mode = "pos" THEN ByPos(c, r) ELSE ByName(c, r, mode)]
 
 \* does the NULL cell land in a destination field (it is in row 1, which every API reads)?
-NullHits(c, byname) ==
+NullHits(c, mode) ==
   /\ c.null # 0
-  /\ IF byname THEN \E i \in 1..c.nf : Key(c, i) = c.cols[c.null] ELSE c.null <= c.nf
+  /\ IF mode = "pos" THEN c.null <= c.nf
+      ELSE \E i \in 1..c.nf : SameName(TagName(c, i), ColName(c, c.null), mode)
 
 Outcome(k, rows) == [k |-> k, rows |-> rows]
 ErrorOut    == Outcome("error", <<>>)
 NotFoundOut == Outcome("notfound", <<>>)
 
-FillOutcomes(c, byname) ==
-  {Outcome("rows", Filled(c, byname))} \cup (IF NullHits(c, byname) THEN {ErrorOut} ELSE {})
+FillOutcomes(c, mode) ==
+  {Outcome("rows", Filled(c, mode))} \cup (IF NullHits(c, mode) THEN {ErrorOut} ELSE {})
 
 Fills(c) ==
-  IF c.prim THEN {FALSE}
-  ELSE IF ~c.tagged THEN {FALSE}
-  ELSE IF c.emb = "none" THEN {TRUE}
-  ELSE {TRUE, FALSE}
+  IF c.prim \/ ~c.tagged THEN {"pos"}
+  ELSE (IF c.tcase = c.ccase THEN {"exact"} ELSE {"exact", "fold"})
+       \cup (IF c.emb = "none" THEN {} ELSE {"pos"})
 
 Fewer(c) == ~c.prim /\ Len(c.cols) < c.nf
 
@@ -154,7 +198,7 @@ Allowed(c) == UNION {WithPre(c, o) : o \in AllowedFresh(c)}
 RowData(c) == [r \in 1..c.nrows |-> [j \in 1..Len(c.cols) |-> At(c, r, j)]]
 
 Observation(c) ==
-  [op |-> "query", prim |-> c.prim, nf |-> c.nf, tagged |-> c.tagged, tagsp |-> c.tagsp,
+  [op |-> "query", prim |-> c.prim, nf |-> c.nf, tagged |-> c.tagged, tagsp |-> c.tagsp, tcase |-> c.tcase, ccase |-> c.ccase,
    tags |-> (IF c.tagged THEN [i \in 1..c.nf |-> TagOf(c.tagsp, i)] ELSE <<>>),
    emb |-> c.emb, embn |-> c.embn, ptrs |-> c.ptrs,
    dest |-> c.dest, cols |-> c.cols, data |-> RowData(c), strict |-> c.strict, pre |-> c.pre,
@@ -175,17 +219,19 @@ PickShape ==
   /\ \/ \E nf \in 1..MaxF, tg \in BOOLEAN, e \in {"none", "val", "ptr"}, d \in Dests, st \in BOOLEAN, n \in RowCounts, pre \in Pres :
            /\ (e # "none" => nf >= 2)
            /\ (d = "one" => pre = 0)
-           /\ \E ps \in PtrChoices(nf), en \in 0..2, sp \in (IF tg THEN TagStyles ELSE {"none"}) :
+           /\ \E ps \in PtrChoices(nf), en \in 0..2, sp \in (IF tg THEN TagStyles ELSE {"none"}),
+                 tc \in (IF tg THEN TagCases ELSE {"none"}) :
                  /\ (e = "none" <=> en = 0) /\ en <= nf
+                 /\ (tc \notin {"lower", "none"} => CaseNarrow(sp, e, ps, pre))
                  /\ (sp = "mixed" => nf >= 2)       \* with one field "mixed" is "opts"
                  /\ (sp \notin {"plain", "none"} =>
                         /\ (StyleCross = "none" => ps = {})
                         /\ (StyleCross # "all" => pre = 0))
-                 /\ shape' = [prim |-> FALSE, nf |-> nf, tagged |-> tg, tagsp |-> sp, emb |-> e, embn |-> en, ptrs |-> ps,
+                 /\ shape' = [prim |-> FALSE, nf |-> nf, tagged |-> tg, tagsp |-> sp, tcase |-> tc, emb |-> e, embn |-> en, ptrs |-> ps,
                               dest |-> d, nrows |-> n, strict |-> st, pre |-> pre]
      \/ \E d \in Dests, n \in RowCounts, st \in BOOLEAN, pre \in Pres :
            /\ (d = "one" => pre = 0)
-           /\ shape' = [prim |-> TRUE, nf |-> 1, tagged |-> FALSE, tagsp |-> "none", emb |-> "none", embn |-> 0, ptrs |-> {},
+           /\ shape' = [prim |-> TRUE, nf |-> 1, tagged |-> FALSE, tagsp |-> "none", tcase |-> "none", emb |-> "none", embn |-> 0, ptrs |-> {},
                         dest |-> d, nrows |-> n, strict |-> st, pre |-> pre]
 
 PickResult ==
@@ -195,10 +241,12 @@ PickResult ==
   /\ IF shape.prim
        THEN \E cid \in 1..3 : \E nl \in 0..(IF shape.nrows = 0 THEN 0 ELSE 1) :
               out' = Observation(PrimCase(shape.dest, cid, shape.nrows, nl, shape.strict, shape.pre))
-       ELSE \E cs \in ColLists(shape.nf, shape.tagged, shape.emb) :
-              \E nl \in 0..(IF shape.nrows = 0 THEN 0 ELSE Len(cs)) :
-                 out' = Observation(StructCase(shape.nf, shape.tagged, shape.tagsp, shape.emb, shape.embn, shape.ptrs, shape.dest,
-                                               cs, shape.nrows, nl, shape.strict, shape.pre))
+       ELSE \E cs \in ColLists(shape.nf, shape.tagged, shape.emb),
+                cc \in (IF shape.tagged THEN ColCaseChoices(shape.tcase) ELSE {"lower"}) :
+              /\ (shape.tagged /\ cc # shape.tcase => OtherNarrow(shape.tagsp, shape.emb, shape.ptrs, shape.pre))
+              /\ \E nl \in 0..(IF shape.nrows = 0 THEN 0 ELSE Len(cs)) :
+                   out' = Observation(StructCase(shape.nf, shape.tagged, shape.tagsp, shape.tcase, shape.emb, shape.embn,
+                                                 shape.ptrs, shape.dest, cs, cc, shape.nrows, nl, shape.strict, shape.pre))
 
 Next == PickShape \/ PickResult
 
@@ -206,8 +254,11 @@ Spec == Init /\ [][Next]_vars
 
 (* ---------------------------------------------------------------- properties of the mapping *)
 
-Case == [prim |-> out.prim, nf |-> out.nf, tagged |-> out.tagged, tagsp |-> out.tagsp, emb |-> out.emb, embn |-> out.embn, ptrs |-> out.ptrs,
-         dest |-> out.dest, cols |-> out.cols, nrows |-> Len(out.data),
+\* Case is the case `out` was made from, so out.allow = Allowed(Case); the properties below compare
+\* out.allow with what Allowed says about a transformed case
+
+Case == [prim |-> out.prim, nf |-> out.nf, tagged |-> out.tagged, tagsp |-> out.tagsp, tcase |-> out.tcase, emb |-> out.emb, embn |-> out.embn, ptrs |-> out.ptrs,
+         dest |-> out.dest, cols |-> out.cols, ccase |-> out.ccase, nrows |-> Len(out.data),
          null |-> (IF \E j \in 1..Len(out.cols) : Len(out.data) > 0 /\ out.data[1][j] = 0
                    THEN CHOOSE j \in 1..Len(out.cols) : out.data[1][j] = 0 ELSE 0),
          strict |-> out.strict, pre |-> out.pre]
@@ -225,13 +276,13 @@ NoExtra(c) == LET keep == SelectSeq(c.cols, LAMBDA id : id # Extra)
 
 \* by-name mapping does not depend on the order of the columns ...
 OrderIndependent ==
-  picked /\ ~out.prim /\ out.tagged /\ out.emb = "none" => Allowed(Case) = Allowed(Sorted(Case))
+  picked /\ ~out.prim /\ out.tagged /\ out.emb = "none" => out.allow = Allowed(Sorted(Case))
 
 \* ... and ignores an extra column (unless its removal is what makes the result "fewer" in strict mode)
 ExtraIgnored ==
   picked /\ ~out.prim /\ out.tagged /\ out.emb = "none" /\ Extra \in Range(out.cols)
          /\ Len(out.cols) > 1 /\ ~(out.strict /\ Len(out.cols) - 1 < out.nf)
-     => Allowed(Case) = Allowed(NoExtra(Case))
+     => out.allow = Allowed(NoExtra(Case))
 
 \* strict mode never reports a partially filled struct as success
 StrictNeverPartial ==
@@ -263,8 +314,24 @@ FieldsComeFromTheirColumns ==
 \* names the field's own column
 TagOptionsIgnored ==
   picked /\ out.tagged =>
-     /\ Allowed(Case) = Allowed([Case EXCEPT !.tagsp = "plain"])
+     /\ out.allow = Allowed([Case EXCEPT !.tagsp = "plain"])
      /\ \A i \in 1..out.nf : KeyOf(out.tags[i]) = i
+
+\* the letter case of the names never changes what a query may do as long as tags and columns
+\* agree on it: db:"userId" names the column "userId" exactly as db:"userid" names "userid"
+SameSpellingMatches ==
+  picked /\ out.tagged /\ out.tcase = out.ccase
+     => out.allow = Allowed([Case EXCEPT !.tcase = "lower", !.ccase = "lower"])
+
+\* a result set spelled differently from the tags is either the same result set (case folded) or one
+\* whose columns no tag names (all fields stay zero); in any case what the same-spelling result set may
+\* do stays allowed
+AllZero(o) == \A r \in 1..Len(o.rows) : \A i \in 1..Len(o.rows[r]) : o.rows[r][i] = 0
+OtherSpellingEitherReading ==
+  picked /\ out.tagged /\ out.emb = "none" /\ out.tcase # out.ccase =>
+     LET same == Allowed([Case EXCEPT !.ccase = out.tcase])
+     IN /\ same \subseteq out.allow
+        /\ out.pre = 0 => \A o \in out.allow \ same : o.k = "rows" /\ AllZero(o) /\ Len(o.rows) = UsedRows(Case)
 
 NeverEmpty == picked => out.allow # {}
 
